@@ -1939,26 +1939,28 @@ fn main() {
             }
         }
     } else {
-        let (n_wake, n_tmo) = if args.thorough() { (100000, 2500) } else { (3000, 150) };
+        // `lite` (the release-profile run of the thorough tier): quick-sized workloads
+        let big = args.thorough() && !args.has("lite");
+        let (n_wake, n_tmo) = if big { (100000, 2500) } else { (3000, 150) };
         // trickle cases sleep most of the time: they run beside everything else
-        let n_trk = if args.thorough() { 24 } else { 8 };
+        let n_trk = if big { 24 } else { 8 };
         let trk: Vec<_> = (0..n_trk).map(|_| {
             let (kind, window, setup, d_ms) = trk_case(&mut rng);
             let seed = rng.next();
             std::thread::spawn(move || run_trickle(kind, window, setup, d_ms, seed))
         }).collect();
-        let n_sq = if args.thorough() { 160 } else { 32 };
+        let n_sq = if big { 160 } else { 32 };
         let sq: Vec<_> = (0..n_sq).map(|_| {
             let c = gen_sq(&mut rng);
             let seed = rng.next();
             std::thread::spawn(move || run_sq(c, seed))
         }).collect();
-        let n_life = if args.thorough() { 400 } else { 64 };
+        let n_life = if big { 400 } else { 64 };
         let life: Vec<_> = (0..n_life).map(|_| { let seed = rng.next(); std::thread::spawn(move || run_life(seed, None)) }).collect();
-        let stalls: Vec<_> = gen_stalls(args.thorough()).into_iter().map(|f| { let seed = rng.next(); std::thread::spawn(move || run_life(seed, Some(f))) }).collect();
-        let wdog = { let seed = rng.next(); let th = args.thorough(); std::thread::spawn(move || run_watchdog_case(seed, th)) };
+        let stalls: Vec<_> = gen_stalls(big).into_iter().map(|f| { let seed = rng.next(); std::thread::spawn(move || run_life(seed, Some(f))) }).collect();
+        let wdog = { let seed = rng.next(); let th = big; std::thread::spawn(move || run_watchdog_case(seed, th)) };
         // entry races
-        let (n_race, race_budget) = if args.thorough() { (400000, Duration::from_secs(150)) } else { (30000, Duration::from_secs(8)) };
+        let (n_race, race_budget) = if big { (400000, Duration::from_secs(120)) } else { (30000, Duration::from_secs(8)) };
         let t_race = Instant::now();
         race_phase(&mut out, &mut rng, &mut idx, n_race, race_budget, None);
         out.extra.insert("race_phase_ms".into(), serde_json::json!(t_race.elapsed().as_millis() as u64));
@@ -1966,7 +1968,7 @@ fn main() {
         // tmo cases are spread among the wake cases
         let every = n_wake / n_tmo;
         // on a crowded machine the quick tier stops generating after a while (coverage shrinks, the verdict does not change)
-        let wake_until = Instant::now() + if args.thorough() { Duration::from_secs(600) } else { Duration::from_secs(16) };
+        let wake_until = Instant::now() + if big { Duration::from_secs(200) } else { Duration::from_secs(16) };
         for i in 0..n_wake {
             if i % 64 == 0 && Instant::now() > wake_until {
                 out.count("wake.time_budget_reached");
@@ -1989,9 +1991,9 @@ fn main() {
             }
         }
         // (g) runs of identical events, (k) knob pairs: scripted single waits
-        let scripted_until = Instant::now() + if args.thorough() { Duration::from_secs(240) } else { Duration::from_secs(9) };
+        let scripted_until = Instant::now() + if big { Duration::from_secs(100) } else { Duration::from_secs(9) };
         let mut scripted: Vec<(&str, Fixed)> = gen_pairs().into_iter().map(|f| ("pairs", f)).collect();
-        scripted.extend(gen_bursts(args.thorough()).into_iter().map(|f| ("burst", f)));
+        scripted.extend(gen_bursts(big).into_iter().map(|f| ("burst", f)));
         rng.shuffle(&mut scripted);
         for (what, f) in scripted {
             if out.oracle_failures >= MAX_FAILURES { break; }
@@ -2001,8 +2003,8 @@ fn main() {
             let r = run_life(rng.next(), Some(f));
             log_sq(&mut out, r, &mut idx);
         }
-        let n_multi = if args.thorough() { 6000 } else { 400 };
-        let multi_until = Instant::now() + if args.thorough() { Duration::from_secs(300) } else { Duration::from_secs(8) };
+        let n_multi = if big { 6000 } else { 400 };
+        let multi_until = Instant::now() + if big { Duration::from_secs(100) } else { Duration::from_secs(8) };
         for _ in 0..n_multi {
             if out.oracle_failures >= MAX_FAILURES || Instant::now() > multi_until { break; }
             idx += 1;
